@@ -54,7 +54,7 @@ ASSUME = [
 ALLOW = ("prefix-names", "zero-length", "long-names")  # zero-length: rejected by the compiler since the repair of F21 (the generator no longer emits it)
 # classes that were tied to compiler defects which are repaired now: part of the normal domain, kept at a moderate weight
 FORMER = ("alias-of-imported-struct", "alias-of-imported-struct-field", "struct-contains-message", "string-special")
-PREFIXES = ("MT_", "MID_", "HID_")
+PREFIXES = ("MT_", "MID_", "HID_", "defines_")
 
 
 # ------------------------------------------------------------------------------------------------
